@@ -517,6 +517,12 @@ func (ft *funcTrans) ret(x *ssa.Return) {
 	}
 	ec := &evalCtx{w: w, pkg: ft.pkgTypes(), env: env, st: st, old: ft.entry}
 	where := posStr(ft.p.SSA.Fset, x.Pos())
+	{
+		o := ft.obligation("cover", fmt.Sprintf("reach-return@b%d", ft.cur.Index), "return is reachable", "true")
+		o.Cover = true
+		o.Where = where
+		w.facts = w.facts[:len(w.facts)-1]
+	}
 	for i, e := range ft.c.Ensures {
 		t := ec.evalBool(e.E)
 		o := ft.obligation("ensures", fmt.Sprintf("ensures%d@b%d", i+1, ft.cur.Index), e.Src, t.S)
